@@ -2180,7 +2180,7 @@ class Kernel:
             names = [n for n in assigned(list(s.body) + list(s.orelse))]
             names = [self.aliases.get(n, n) for n in names]
             join = []
-            for n in names:
+            for n in sorted(set(names)):    # NORMAL FORM: the joined variables are ordered by name, not by the order of assignment in the source
                 if n in env and n not in [j for j, _ in join]:
                     join.append((n, env[n]))
             if not join:
@@ -2255,7 +2255,7 @@ class Kernel:
             src, ts, pat = self.for_source(s, env, binds, env_body)
         names = [self.aliases.get(n, n) for n in assigned(list(s.body))]
         state = []
-        for n in names:
+        for n in sorted(set(names)):        # NORMAL FORM: the loop state is ordered by variable name, not by the order of assignment in the source
             if n in env and n not in [x for x, _ in state] and not (is_for and n in self.for_targets(s)):
                 state.append((n, env[n]))
         # variables first assigned inside the loop and used afterwards are not supported (Lean reports the unbound name)
